@@ -304,9 +304,10 @@ def repeatBoxCoord (c : Consts) (xs : List Vec) (b : Box) (amount : Int) : List 
   (cubeShifts c amount).flatMap fun s => xs.map fun x => x.add (vecMul (ofInts s.1 s.2.1 s.2.2) b)
 
 /-- `repeat_box_coord(coord, box, amount)` as a whole: a negative `amount` makes `(1 + 2·amount)³` negative and
-`np.tile` refuses it (`ValueError: negative dimensions are not allowed`). -/
+`np.tile` refuses to repeat a NON-EMPTY index array that often (`ValueError: negative dimensions are not allowed`);
+an empty coordinate array just stays empty. -/
 def repeatBoxCoordE (c : Consts) (xs : List Vec) (b : Box) (amount : Int) : Except Err (List Vec × List Nat) :=
-  if (1 + 2 * amount) ^ 3 < 0 then .error .valueError
+  if (1 + 2 * amount) ^ 3 < 0 ∧ xs ≠ [] then .error .valueError
   else .ok (repeatBoxCoord c xs b amount, (cubeShifts c amount).flatMap fun _ => List.range xs.length)
 
 /-- `repeat_box_coord(...)[1] = np.tile(np.arange(n), (1 + 2 amount)^3)` -/
